@@ -41,6 +41,17 @@ CHECKS = {
          "The allowed representation set BestSet is defined in TLA+ for every reading the property leaves open; every real write (12 "
          "repetitions per request to expose map-order nondeterminism) is judged against it.", "6 C05",
          "Trusted: TLC, Json module, net/http; SP is the only optional whitespace generated; Produces entries have registered writers."),
+ "C08": ("TLC exhaustive model checking of MC_Cors (every configuration x stored-methods state; every pool request answered by the "
+         "implementation-shaped filter and judged by all C08 clauses; both readings of 'allowed origin' proved equal on the pool) + replay of "
+         "every configuration with the whole pool on one real filter instance next to a filter-less twin container + TLC trace validation "
+         "(CorsTrace, clauses C08.*) incl. random origins derived from allowed entries by edit operations",
+         "OriginAllowed is written exactly as the statement words it; no-grant responses must equal the filter-less twin's projection.",
+         "6 C08", "Trusted: TLC, Json module, net/http; predicate catalogue is case-insensitive; handlers add no Access-Control-* header."),
+ "C09": ("same pipeline, clauses C09.alone / refuse / grant / actual; histories of preflights to different URLs on one filter instance; "
+         "the pointer-receiver counter-model (computed methods persisting on the filter) is refuted by TLC",
+         "Preflight grant is defined in Layer A from configured methods or the methods routable at the URL; each response of a request "
+         "sequence on ONE real filter instance is judged against its own URL.", "6 C09",
+         "Trusted as for C08; Access-Control-Request-Method is upper case; routable methods come from the harness's fixed route table."),
 }
 
 NOT_YET = "check under construction in this round; see DESIGN.md section 13 (build order)"
